@@ -1,6 +1,7 @@
 import AthlibVerif.Lemmas.MatchCodes
 import AthlibVerif.Lemmas.MatchWords
 import AthlibVerif.Lemmas.RelayLeg
+import AthlibVerif.Lemmas.DistRelay
 import AthlibVerif.Gen.Patterns
 /-!
 Obligations over the regenerated patterns and alphabet: the groups the transcription of
@@ -46,5 +47,13 @@ theorem track_token : tokenNotRelayOK Gen.PAT_TRACK = true := by decide +kernel
 /-- the event codes that are not relays: none is white space only, none has a relay as its first token -/
 def nonRelayCodes : RE := RE.and Gen.PAT_EVENT_CODE (RE.not Gen.PAT_RELAYS)
 theorem code_token : tokenNotRelayOK nonRelayCodes = true := by decide +kernel
+
+/-- the leading-number patterns ARE `\d+` / `\d+\.\d*` (so the greedy-engine lemmas apply to them) -/
+theorem leading_shape : leadingShapeOK = true := by decide +kernel
+theorem num_facts : numFactsOK = true := by decide +kernel
+/-- a relay leg is `\d+(\.\d+)?[hHMK]?` or one of RELAY, DMR, SMR, SDMR, SSMR, SWR in any letter case -/
+theorem leg_shape : legShapeOK = true := by decide +kernel
+/-- no event code consists of white space only -/
+theorem codes_have_token : RE.isEmptyLang Gen.nsym 100000 (RE.and Gen.PAT_EVENT_CODE spaceStar) = true := by decide +kernel
 
 end AthlibVerif.Oblig.C10
